@@ -74,6 +74,9 @@ def main(argv=None):
         return 3
     if args.only:
         units = [u for u in units if re.search(args.only, u.name)]
+    harness.REPLAYER = getattr(mod, 'replay', None)
+    if args.tier == 'thorough' or os.environ.get('PYVC_CROSSCHECK'):
+        harness.CROSSCHECK = True
     results = harness.run_units(units, args.jobs)
     wall_units = time.time() - t0
 
@@ -145,8 +148,15 @@ def main(argv=None):
     for kid, (ent, obs) in sorted(known_hit.items()):
         print('KNOWN-FINDING: property=%s %s [%s; %d obligation(s) in the recorded region]' % (prop, ent['what'], kid, len(obs)))
 
+    xc_total = xc_bad = 0
+    for r in results:
+        for x in r.get('crosschecks', []):
+            xc_total += 1
+            if x['native'].get('reproduced'):
+                xc_bad += 1
+                print('CHECKER-ERROR: engine/CPython cross-check disagrees on a PROVED obligation %s: %s' % (x['obligation'], str(x['native'].get('detail'))[:300]))
     status = 0
-    if errors or canary_fail:
+    if errors or canary_fail or xc_bad:
         status = 3
     if not args.only and d_obls + bounded_evals == 0:
         print('CHECKER-ERROR: zero obligations generated')
@@ -165,15 +175,15 @@ def main(argv=None):
     wall = time.time() - t0
     if not args.only:
         write_evidence(mod, prop, args.tier, seed, results, proved, d_obls, violations, undecided, excluded,
-                       known_hit, canaries_total, canaries_refuted, bounded_evals, bounded_distinct, wall)
-    print('%s tier=%s units=%d obligations=%d discharged=%d refuted=%d undecided=%d known-region=%d canaries=%d/%d bounded-evals=%d wall=%.1fs exit=%d'
+                       known_hit, canaries_total, canaries_refuted, bounded_evals, bounded_distinct, wall, xc_total, xc_bad)
+    print('%s tier=%s units=%d obligations=%d discharged=%d refuted=%d undecided=%d known-region=%d canaries=%d/%d bounded-evals=%d crosschecks=%d/%d wall=%.1fs exit=%d'
           % (prop, args.tier, len(results), d_obls, proved, len(violations), len(undecided), excluded,
-             canaries_refuted, canaries_total, bounded_evals, wall, status))
+             canaries_refuted, canaries_total, bounded_evals, xc_total - xc_bad, xc_total, wall, status))
     return status
 
 
 def write_evidence(mod, prop, tier, seed, results, proved, d_obls, violations, undecided, excluded, known_hit,
-                   canaries_total, canaries_refuted, bevals, bdistinct, wall):
+                   canaries_total, canaries_refuted, bevals, bdistinct, wall, xc_total=0, xc_bad=0):
     meta = getattr(mod, 'META', {})
     funcs = {}
     stats = {}
@@ -213,6 +223,8 @@ def write_evidence(mod, prop, tier, seed, results, proved, d_obls, violations, u
         'backends': {'z3_queries': stats.get('z3', 0), 'sympy_normal_form': stats.get('sympy', 0), 'cvc5': stats.get('cvc5', 0)},
         'solver_s': round(stats.get('z3_s', 0) + stats.get('sympy_s', 0) + stats.get('cvc5_s', 0), 2),
         'canaries': canaries_total, 'canaries_refuted': canaries_refuted,
+        'engine_crosscheck': {'paths_replayed_natively': xc_total, 'disagreements': xc_bad,
+                              'note': 'thorough tier: for proved obligations concrete values satisfying the path condition are drawn, the real function is run in CPython and the proved contract evaluated natively'},
         'undecided': len(undecided),
         'excluded_known_finding_obligations': excluded,
         'known_findings_still_failing': sorted(known_hit),
